@@ -43,8 +43,9 @@ ensures
         ==> (covers(res->Ok_0@, y) <==> covers(cells@, y))),                                                       // [C08:compact.cover-preserved]
     all_canonical(cells@) && antichain_set(cells@) && res is Ok ==> antichain(res->Ok_0@) && res->Ok_0@.no_duplicates(),   // [C08:compact.no-duplicates]
 //@at entry
-hide(enc); hide(dec); hide(decodable); hide(probe); hide(kids_ids); hide(valid); hide(is_desc);
+hide(enc); hide(dec); hide(decodable); hide(probe); hide(kids_ids); hide(valid); hide(is_desc); hide(anc);
 //@at after "std_sort_unstable(&mut current_cells);"
+let ghost init = current_cells@;
 proof {
     // C08 order / multiplicity independence: the working list is the unique strictly sorted
     // enumeration of the input SET (lemma_sorted_unique); `cells` is not read again below.
@@ -54,40 +55,38 @@ proof {
         }
     }
     assert(current_cells@.to_set() == cells@.to_set());                                                            // [C08:compact.input-set]
-    lemma_initial_list(cells@, current_cells@);
+    if all_canonical(cells@) {
+        lemma_initial_list(cells@, init);
+        lemma_refines_refl(init);
+    }
 }
 //@loop 1
 invariant
     current_cells@.len() <= 0x0fffffffffffffff,
-    all_canonical(cells@) ==> all_canonical(current_cells@),
-    all_canonical(cells@) ==> (forall|m: int| max_res_le(cells@, m) ==> max_res_le(current_cells@, m)),
-    all_canonical(cells@) ==> (forall|y: A5Cell| valid(y) && max_res_le(cells@, y.resolution as int)
-        ==> (covers(current_cells@, y) <==> covers(cells@, y))),
-    all_canonical(cells@) && antichain_set(cells@) ==> antichain(current_cells@),
+    all_canonical(cells@) ==> refines(current_cells@, init),
 decreases current_cells@.len(), (if changed { 1int } else { 0int }),
+//@at after-let i
+proof {
+    lemma_comb_start(current_cells@);
+    if all_canonical(cells@) { assert(all_canonical(current_cells@)) by { reveal(refines); } lemma_refines_refl(current_cells@); }
+}
 //@loop 2
 invariant
     i <= current_cells@.len(),
     result@.len() <= i,
     changed ==> result@.len() < i,
     !changed ==> result@.len() == i,
-    all_canonical(cells@) ==> all_canonical(result@ + current_cells@.subrange(i as int, current_cells@.len() as int)),
-    all_canonical(cells@) ==> (forall|m: int| max_res_le(current_cells@, m)
-        ==> max_res_le(result@ + current_cells@.subrange(i as int, current_cells@.len() as int), m)),
-    all_canonical(cells@) ==> (forall|y: A5Cell| valid(y) && max_res_le(current_cells@, y.resolution as int)
-        ==> (covers(result@ + current_cells@.subrange(i as int, current_cells@.len() as int), y) <==> covers(current_cells@, y))),
-    all_canonical(cells@) && antichain(current_cells@)
-        ==> antichain(result@ + current_cells@.subrange(i as int, current_cells@.len() as int)),
+    all_canonical(cells@) ==> refines(comb(result@, current_cells@, i as int), current_cells@),
 decreases current_cells@.len() - i,
-//@at after-let i
-proof {
-    assert(result@ + current_cells@.subrange(0, current_cells@.len() as int) =~= current_cells@);
-}
 //@at loop 2 body-start
 proof {
-    lemma_keep_step(current_cells@, result@, i as int);
+    lemma_comb_keep(result@, current_cells@, i as int);
     lemma_res_range(current_cells@[i as int], 29);
 }
+//@loop 3
+invariant
+    1 <= j <= expected_children,
+    has_all_siblings ==> (forall|jj: int| 1 <= jj < j ==> #[trigger] current_cells@[i + jj] == cell + jj * stride),
 //@at loop 3 body-start
 proof {
     lemma_stride_bound(resolution as int);
@@ -97,34 +96,26 @@ proof {
 //@at before "let parent = cell_to_parent"
 proof {
     if all_canonical(cells@) {
-        let comb = result@ + current_cells@.subrange(i as int, current_cells@.len() as int);
-        assert(comb[result@.len() as int] == cell);
-        assert(canonical(cell));
+        assert(canonical(cell)) by { reveal(refines); }
         lemma_canonical_decodable(cell);
         lemma_dec_res(cell);
     }
 }
-//@loop 3
-invariant
-    1 <= j <= expected_children,
-    has_all_siblings ==> (forall|jj: int| 1 <= jj < j ==> #[trigger] current_cells@[i + jj] == cell + jj * stride),
 //@at after-let parent
 proof {
+    lemma_dec_res(cell);
     if all_canonical(cells@) {
-        lemma_merge_setup(current_cells@, i as int, cell, parent);
-        lemma_merge_step(current_cells@, result@, i as int, expected_children as int, parent, parent1(dec(cell)));
-        lemma_maxres_transfer(current_cells@, result@, i as int, expected_children as int, parent);
+        lemma_comb_merge(result@, current_cells@, i as int, cell, parent);
     }
 }
-//@at loop 1 body-end
+//@at before "current_cells = result;"
 proof {
-    assert(result@ + current_cells@.subrange(current_cells@.len() as int, current_cells@.len() as int) =~= result@);
+    lemma_comb_end(result@, current_cells@);
+    if all_canonical(cells@) { lemma_refines_trans(result@, current_cells@, init); }
 }
 //@at before-tail
 proof {
-    if all_canonical(cells@) && antichain_set(cells@) {
-        lemma_antichain_no_dup(current_cells@);
-    }
+    if all_canonical(cells@) { lemma_compact_final(cells@, init, current_cells@); }
 }
 //@end
 
